@@ -384,6 +384,31 @@ def run_C13(ctx):
     decide(ctx, b, "TraceCodec", ["Inv_NoPanic", "Inv_C13_Fuzz"], ct)
 
 
+# ----------------------------------------------------------------------------
+# importer and fixtures
+
+def run_C18(ctx):
+    b = vlib.build_harness()
+    q = ctx.quick
+    vlib.model_check(ctx, "Import", open(vlib.os.path.join(vlib.SPEC, "Import.cfg")).read(), name="Import")
+    t = [gen(ctx, b, "import_enum", ["import-gen", "-what", "enum"]),
+         gen(ctx, b, "import_random", ["import-gen", "-what", "random", "-count", 40 if q else 600, "-seed", ctx.seed]),
+         gen(ctx, b, "import_wide", ["import-gen", "-what", "wide"])]
+    ctx.exhaustive = True
+    decide(ctx, b, "TraceImport", ["Inv_NoPanic", "Inv_Harness_Walk", "Inv_C18_Reject", "Inv_C18_Tree", "Inv_C18_Shard", "Inv_C18_Big"], t)
+
+
+def run_C19(ctx):
+    b = vlib.build_harness()
+    q = ctx.quick
+    vlib.model_check(ctx, "Fixture", open(vlib.os.path.join(vlib.SPEC, "Fixture.cfg")).read(), name="Fixture")
+    # non-vacuity / documentation of F9: a generator that may repeat a sibling name violates SiblingsOK
+    vlib.model_check(ctx, "Fixture", open(vlib.os.path.join(vlib.SPEC, "Fixture.cfg")).read().replace("AllowDup = FALSE", "AllowDup = TRUE"),
+                     name="Fixture_dup_names", expect_violation="Inv_C19_Siblings")
+    t = [gen(ctx, b, "fixtures", ["fixture-gen", "-count", 4 if q else 60, "-seed", ctx.seed])]
+    decide(ctx, b, "TraceFixture", ["Inv_NoPanic", "Inv_Harness_Walk", "Inv_C19_Same", "Inv_C19_Siblings", "Inv_C19_Paths"], t)
+
+
 def finish(ctx, plan):
     vlib.write_evidence(ctx, LEVEL, plan["rule"], ASSUME_COMMON + plan.get("assume", []))
 
@@ -469,7 +494,33 @@ RULE_HOST = ("a case is a hand-assembled DAG (valid base HAMT / file / directory
              "representative of a reification input class) x variant {lazy, preload}; all singles and pairs are enumerated; "
              "non-trivial = the DAG differs from the valid base or belongs to a distinct input class; distinct = case ids")
 
+TECH_IMPORT = ("explicit TLA+ spec (ImportOps/Import): the recursive importer as a post-order machine over every tree of depth <= 2, "
+               "model-checked by TLC; on-disk trees (files, directories, relative/absolute/dangling symlinks, fifos, unicode and "
+               "spaced names, directories straddling the shard threshold) are materialised and imported for real; the stored DAG is "
+               "walked independently and compared by TLC (TraceImport.tla) with the on-disk tree")
+TECH_FIX = ("explicit TLA+ spec (FixtureOps/Fixture): described-tree predicates model-checked over all small trees incl. a non-vacuity "
+            "run with repeated names; every exported generator is run for seeded random sources and target sizes and its returned "
+            "entry tree validated by TLC (TraceFixture.tla) against an independent walk of the stored DAG")
+NOTE_IO = ("trusted: TLC, the independent walkers (boxo merkledag + gogo unixfs_pb), the OS filesystem calls of the harness; contents "
+           "are compared by digest / byte equality in Go")
+
 PLANS = {
+    "C18": P(run_C18, "TLC checks on Import that the importer finishes nodes children-first, returns a link only after the whole tree and "
+             "an error exactly when the tree contains a non-regular file; 281 enumerated on-disk trees (every root with <= 2 "
+             "children drawn from 8 leaf kinds and one-child directories), seeded random trees and directories of 1336..1339 "
+             "entries straddling the 262144-byte shard estimate are imported for real; TLC validates that the independently walked "
+             "DAG has the same names, file bytes and symlink texts, that fifos are rejected, and that a directory is sharded "
+             "exactly when its estimate exceeds the threshold (Inv_C18_*).",
+             rule="a case is an on-disk tree (enumerated / random from VERIF_SEED / wide); non-trivial = at least one child or a "
+                  "non-directory root; distinct = case ids", technique=TECH_IMPORT, note=NOTE_IO),
+    "C19": P(run_C19, "TLC checks the described-tree predicates over all trees of depth <= 2 (and that a name-repeating generator "
+             "violates them); UnixFSFile, UnixFSDirectory (default and custom child generator, with and without shard bit-width), "
+             "GenerateDirectory (sharded or not), BuildDirectory and WrapContent are run for seeded random sources and five "
+             "target sizes; TLC validates returned tree = independent walk of the stored DAG (names, content digests, links), "
+             "sibling names non-empty and unique, and path composition for the directory generators (Inv_C19_*).",
+             rule="a case is (generator, options, seed, target size); non-trivial = the generator returned a tree; distinct = case ids; "
+                  "target sizes below 32 bytes are excluded (the directory generators cannot draw a non-zero file size there)",
+             technique=TECH_FIX, note=NOTE_IO + "; ToDirEntry needs a *testing.T and is not exercised"),
     "C13": P(run_C13, "every single defect and every pair of defects (bitfield longer/shorter/absent, parent/child fanout mismatch, names "
              "shorter than / equal to the prefix or absent, missing sizes, wrong types, inconsistent or huge block sizes and file "
              "sizes, links to missing or wrong-typed blocks, invalid shard parameters) applied to valid HAMT / file / directory DAGs, "
